@@ -191,5 +191,5 @@ def obligations(tier):
                   'cli_run of both tools on a virtual file system: every combination of CSV input encoding, CSV output encoding, IPM encoding and blocking; one row', _funcs,
                   'argparse parsing and the operating system file layer'))
     if not q:
-        obs.append(Ob('rows3/cp037/1014', csv_roundtrip(3, 'cp037', True, shapes=SHAPES20[:3]), 3000, 'three rows', _funcs))
+        obs.append(Ob('rows3/cp037/1014', csv_roundtrip(3, 'cp037', True, shapes=[SHAPES20[0], SHAPES20[2]]), 3000, 'three rows, each of either of two shapes', _funcs))
     return obs
